@@ -460,7 +460,7 @@ theorem Inv.step {s : St} (h : Inv s) : Inv (step specs s) := by
           (by simp) (by simp [regTrace]) (by simp [cleanupTraceOf]) (by simp [deadCount, deadTrace])
           hhist (fun _ => hran) (by rw [hc]; rfl) (by simp [rootTrace])
     · rename_i a l k hk
-      exact h.updTop (fr' := { fr with kont := k, cleanups := (a, ckOf l) :: fr.cleanups, regd := a :: fr.regd })
+      exact h.updTop (fr' := { fr with kont := k, cleanups := (a, ckOf l, fr.sched) :: fr.cleanups, regd := a :: fr.regd })
           [.reg fr.id a] hf0 rfl rfl rfl rfl rfl rfl
           (by simp [Out.frame]) (by simp [regTrace]) (by simp [cleanupTraceOf]) (by simp [deadCount, deadTrace])
           (by rw [hran] at hhist ⊢; simpa using hhist) (fun _ => hran) (by simp [emit, hc, Ctl.rootIsDone]) (by simp [rootTrace])
@@ -507,8 +507,8 @@ theorem Inv.step {s : St} (h : Inv s) : Inv (step specs s) := by
             hhist (fun _ => hran) (by rw [hc]; rfl) (by simp [rootTrace])
         have := key _ h1 hc (by simp)
         simpa [hr] using this
-      · have h1 : Inv (emit { s with frames := { fr with kont := k, catching := false, sched := n, resched := true, cleanups := (0, CK.back fr.sched) :: fr.cleanups, regd := 0 :: fr.regd } :: rest } (.reg fr.id 0)) :=
-          h.updTop (fr' := { fr with kont := k, catching := false, sched := n, resched := true, cleanups := (0, CK.back fr.sched) :: fr.cleanups, regd := 0 :: fr.regd })
+      · have h1 : Inv (emit { s with frames := { fr with kont := k, catching := false, sched := n, resched := true, cleanups := (0, CK.back fr.sched, 0) :: fr.cleanups, regd := 0 :: fr.regd } :: rest } (.reg fr.id 0)) :=
+          h.updTop (fr' := { fr with kont := k, catching := false, sched := n, resched := true, cleanups := (0, CK.back fr.sched, 0) :: fr.cleanups, regd := 0 :: fr.regd })
             [.reg fr.id 0] hf0 rfl rfl rfl rfl rfl rfl
             (by simp [Out.frame]) (by simp [regTrace]) (by simp [cleanupTraceOf]) (by simp [deadCount, deadTrace])
             (by rw [hran] at hhist ⊢; simpa using hhist) (fun _ => hran) (by simp [emit, hc, Ctl.rootIsDone]) (by simp [rootTrace])
@@ -540,17 +540,18 @@ theorem Inv.step {s : St} (h : Inv s) : Inv (step specs s) := by
     have hnf : s.ctl ≠ .finished := by rw [hc]; simp
     unfold exitStep
     split
-    · rename_i a ck cs hcs
+    · rename_i a ck q cs hcs
       have h1 : Inv (emit { s with frames := { fr with cleanups := cs, ran := fr.ran ++ [a] } :: rest } (.cleanup fr.id a)) :=
         h.updTop (fr' := { fr with cleanups := cs, ran := fr.ran ++ [a] }) [.cleanup fr.id a] hf0 rfl rfl rfl rfl rfl rfl
           (by simp [Out.frame]) (by simp [regTrace]) (by simp [cleanupTraceOf]) (by simp [deadCount, deadTrace])
           (by rw [hcs] at hhist; simpa using hhist) (fun he => by simp [emit, hc, Ctl.exiting] at he)
           (by simp [emit, hc, Ctl.rootIsDone]) (by simp [rootTrace])
+      have h1q := h1.emitNone (.cleanupSched q) rfl rfl
       simp only []
       split
-      · exact h1
+      · exact h1q
       · rename_i l
-        have h2 := h1.emitNone (.leafStart l false) rfl rfl
+        have h2 := h1q.emitNone (.leafStart l false) rfl rfl
         split
         · exact h2
         · exact h2.same [.terminate] rfl rfl rfl rfl rfl (by simp [Out.frame]) (fun he => by cases he) (fun he => by cases he)
